@@ -2,6 +2,8 @@
 
 from __future__ import annotations
 
+import re
+
 from typing import Any
 
 from vlib import diag
@@ -19,9 +21,10 @@ def check_positions(out: str, files: dict[str, str]) -> list[dict[str, Any]]:
         if text is None:
             continue
         # the (empty) line after a final newline exists: EOF positions may legitimately point there
-        lines = text.replace("\r\n", "\n").split("\n")
+        lines = re.split(r"\r\n|\r|\n", text)   # the line terminators Python's tokenizer knows (not \f, \v, \x1c..)
         nl = max(len(lines), 1)
         why = None
+        excess = None
         if not (1 <= e["line"] <= nl):
             why = f"line {e['line']} outside 1..{nl}"
         else:
@@ -29,6 +32,7 @@ def check_positions(out: str, files: dict[str, str]) -> list[dict[str, Any]]:
             blen = max(len(ln), len(ln.encode("utf-8", "replace")))  # columns may be utf-8 byte offsets: both accepted
             if e["col"] is not None and not (1 <= e["col"] <= blen + 1):
                 why = f"column {e['col']} outside line of length {len(ln)}"
+                excess = e["col"] - (blen + 1)
         if why is None and e["eline"] is not None:
             if (e["eline"], e["ecol"]) < (e["line"], e["col"] or 0):
                 why = f"end {e['eline']}:{e['ecol']} before start {e['line']}:{e['col']}"
@@ -40,7 +44,7 @@ def check_positions(out: str, files: dict[str, str]) -> list[dict[str, Any]]:
                 if e["ecol"] is not None and not (0 <= e["ecol"] <= eblen + 1):
                     why = f"end column {e['ecol']} outside line of length {len(eln)}"
         if why:
-            bad.append({"why": why, "raw": e["raw"]})
+            bad.append({"why": why, "raw": e["raw"], "excess": excess})
     return bad
 
 
